@@ -72,16 +72,38 @@ class IdxPlugin:
             sv = explore.to_signed_ivs(av)
             lo, hi = sv[0][0], sv[-1][1]
             if lo >= d or hi < 0:
-                self.hits.append((i, "definite", "index %s of %s (extent %d)" % (explore.fmt(av), g.get("dname", gname), d), s))
+                self.hits.append((i, "definite", "index %s of %s (extent %d)" % (explore.fmt(av), g.get("dname", gname), d), s, o))
                 ex.stop = True
             elif dep and (hi >= d or lo < 0):
-                self.hits.append((i, "maybe", "index %s of %s (extent %d)" % (explore.fmt(av), g.get("dname", gname), d), s))
+                self.hits.append((i, "maybe", "index %s of %s (extent %d)" % (explore.fmt(av), g.get("dname", gname), d), s, o))
             # struct element arrays: later dims follow; keep scanning
         return None
 
 
+STEPS = {"quick": 25000, "thorough": 400000}
+
+
+def _pure_in(f, o, k, depth=0, seen=None):
+    """operand o is computed from parameter k and constants only (arithmetic, casts, selects and phis of such)"""
+    seen = set() if seen is None else seen
+    if o[0] == "c":
+        return True
+    if o[0] == "a":
+        return o[1] == k
+    if o[0] != "i" or depth > 40:
+        return False
+    if o[1] in seen:
+        return True
+    seen.add(o[1])
+    d = f.insts[o[1]]
+    if d.op in ("add", "sub", "mul", "and", "or", "xor", "shl", "lshr", "ashr", "sdiv", "udiv", "srem", "urem", "sext", "zext", "trunc", "freeze", "icmp", "select", "phi"):
+        return all(_pure_in(f, x, k, depth + 1, seen) for x in d.ops)
+    return False
+
+
 def _work(args):
-    bc_path, fname, cfgname = args
+    bc_path, fname, cfgname = args[:3]
+    steps = args[3] if len(args) > 3 else STEPS["quick"]
     m = ir.load(bc_path, [fname])
     f = m.fn(fname)
     out = []
@@ -110,7 +132,7 @@ def _work(args):
                 try:
                     ex = Explorer(f, assume=assume, assume_def=adef, plugin=pl, keep_trail=True)
                     ex.track_taint = True
-                    ex.MAXSTEPS = 25000
+                    ex.MAXSTEPS = steps
                     ex.run()
                     status = "ok"
                 except AnalysisBroken as e:
@@ -124,7 +146,8 @@ def _work(args):
 def _work_int(args):
     """integer parameters (resolutions, codes, vertex numbers, k ...) taken as arbitrary 32-bit values: a table subscript derived from the parameter
     whose refined range on a path with exactly interpreted conditions reaches beyond the extent is attainable, hence definite"""
-    bc_path, fname, cfgname = args
+    bc_path, fname, cfgname = args[:3]
+    steps = args[3] if len(args) > 3 else STEPS["quick"]
     m = ir.load(bc_path, [fname])
     f = m.fn(fname)
     out = []
@@ -135,7 +158,7 @@ def _work_int(args):
         try:
             ex = Explorer(f, assume={("a", k): explore.full(32)}, plugin=pl, keep_trail=True)
             ex.track_taint = True
-            ex.MAXSTEPS = 25000
+            ex.MAXSTEPS = steps
             ex.run()
             status = "ok"
         except AnalysisBroken as e:
@@ -143,7 +166,9 @@ def _work_int(args):
         hits = []
         for h in pl.hits:
             kind = h[1]
-            if kind == "maybe" and not h[3].env.get(("flag", "approx_dep")) and not h[3].env.get(("flag", "approx")):
+            # attainable only when the subscript is a function of the parameter alone: a value that also depends on memory or on a callee's result
+            # (`(vertexNum + rotations) % 6` with rotations loaded) has a range that says nothing about which values occur
+            if kind == "maybe" and not h[3].env.get(("flag", "approx_dep")) and not h[3].env.get(("flag", "approx")) and _pure_in(f, h[4], k):
                 kind = "definite"
             hits.append((h[0].where(), h[0].src_fn, kind, h[2], explore.trail_lines(f, h[3].trail)))
         out.append({"fn": fname, "param": a["name"], "field": "integer parameter", "value": -1, "status": status, "sites": len(pl.seen_sites), "hits": hits, "steps": ex.steps})
@@ -157,7 +182,7 @@ def check_int(ctx, cfg, tier, api, rule="R-IDX"):
     ctx.floor(rule, "exported functions taking an integer", len(funcs), 25)
     results = []
     with ProcessPoolExecutor(max_workers=min(16, os.cpu_count() or 4)) as pool:
-        for r in pool.map(_work_int, [(b["inl"], fn, cfg) for fn in funcs]):
+        for r in pool.map(_work_int, [(b["inl"], fn, cfg, STEPS.get(tier, STEPS["quick"])) for fn in funcs]):
             results.extend(r)
     n = 0
     for r in results:
@@ -191,7 +216,7 @@ def check(ctx, cfg, tier, api, rule="R-IDX"):
     if tier != "thorough":
         funcs = [fn for fn in funcs if fn in QUICK_FUNCS]
     ctx.floor(rule, "exported functions taking an index", len(funcs), 15 if tier != "thorough" else 40)
-    tasks = [(b["inl"], fn, cfg) for fn in funcs]
+    tasks = [(b["inl"], fn, cfg, STEPS.get(tier, STEPS["quick"])) for fn in funcs]
     results = []
     with ProcessPoolExecutor(max_workers=min(16, os.cpu_count() or 4)) as pool:
         for r in pool.map(_work, tasks):
